@@ -1,3 +1,340 @@
 package main
 
-func engineGen(seed int64, n int, opts map[string]string) []J { return nil }
+// Seeded random program generator for trace validation of the engine family (inputs only: the oracle is
+// EngineTrace.tla). Programs are small but structurally rich: several predicates of arity 0..3, nested compound /
+// list / partial-list arguments, shared and repeated variables, direct and mutual recursion (structural and
+// unguarded, the latter cut off by the event budget), conjunction, nested and top-level disjunction, call/N with
+// partial goals, \+, findall, if-then-else; with the feature options also cut (at the placements C03 admits),
+// catch/throw and built-in errors (C04), assert/retract on dynamic predicates (C09), bagof/setof (C11).
+
+import (
+	"fmt"
+	"math/rand"
+	"strconv"
+	"strings"
+
+	"verifharness/internal/jt"
+)
+
+type pgen struct {
+	r     *rand.Rand
+	preds []gpred
+	feat  map[string]bool
+	dyn   []gpred
+}
+
+type gpred struct {
+	name  string
+	arity int
+}
+
+var gatoms = []string{"a", "b", "c"}
+
+func (g *pgen) ground(depth int) J {
+	switch g.r.Intn(7) {
+	case 0, 1:
+		return jt.A(gatoms[g.r.Intn(len(gatoms))])
+	case 2:
+		return jt.I(g.r.Intn(3))
+	case 3:
+		if depth > 0 {
+			return jt.C("f", g.ground(depth-1))
+		}
+	case 4:
+		if depth > 0 {
+			n := g.r.Intn(3)
+			es := make([]J, n)
+			for i := range es {
+				es[i] = g.ground(depth - 1)
+			}
+			return jt.List(es, nil)
+		}
+	case 5:
+		if depth > 0 {
+			return jt.C("g", g.ground(depth-1), g.ground(depth-1))
+		}
+	}
+	return jt.A(gatoms[g.r.Intn(len(gatoms))])
+}
+
+// term over variables 1..*nv; may introduce new ones while *nv < maxv. linear: every variable occurrence is new.
+func (g *pgen) term(nv *int, maxv, depth int, linear bool) J {
+	switch g.r.Intn(10) {
+	case 0, 1, 2, 3:
+		if linear {
+			*nv++
+			return jt.V(*nv)
+		}
+		if *nv > 0 && g.r.Intn(3) > 0 {
+			return jt.V(1 + g.r.Intn(*nv))
+		}
+		if *nv < maxv {
+			*nv++
+			return jt.V(*nv)
+		}
+		if *nv > 0 {
+			return jt.V(1 + g.r.Intn(*nv))
+		}
+	case 4:
+		if depth > 0 {
+			return jt.C("f", g.term(nv, maxv, depth-1, linear))
+		}
+	case 5:
+		if depth > 0 {
+			return jt.C("g", g.term(nv, maxv, depth-1, linear), g.term(nv, maxv, depth-1, linear))
+		}
+	case 6, 7:
+		if depth > 0 {
+			n := 1 + g.r.Intn(2)
+			es := make([]J, n)
+			for i := range es {
+				es[i] = g.term(nv, maxv, depth-1, linear)
+			}
+			var tail J
+			if g.r.Intn(3) == 0 {
+				tail = g.term(nv, maxv, 0, linear)
+			}
+			return jt.List(es, tail)
+		}
+	}
+	return g.ground(depth)
+}
+
+func (g *pgen) callOf(p gpred, nv *int, maxv int, linear bool) J {
+	if p.arity == 0 {
+		return jt.A(p.name)
+	}
+	args := make([]J, p.arity)
+	for i := range args {
+		args[i] = g.term(nv, maxv, 1+g.r.Intn(2), linear)
+	}
+	return jt.C(p.name, args...)
+}
+
+func (g *pgen) anyPred() gpred { return g.preds[g.r.Intn(len(g.preds))] }
+
+// laterPred prefers predicates defined after pi (keeps most programs terminating) but allows any (recursion).
+func (g *pgen) targetPred(pi int) gpred {
+	if pi+1 < len(g.preds) && g.r.Intn(5) > 0 {
+		return g.preds[pi+1+g.r.Intn(len(g.preds)-pi-1)]
+	}
+	return g.anyPred()
+}
+
+func (g *pgen) goal(pi int, nv *int, maxv, depth int) J {
+	k := g.r.Intn(20)
+	switch {
+	case k <= 6:
+		return g.callOf(g.targetPred(pi), nv, maxv, false)
+	case k == 7:
+		rhs := g.term(nv, maxv, 2, false)
+		*nv++
+		return jt.C("=", jt.V(*nv), rhs) // a fresh variable on the left
+	case k == 8:
+		return jt.C("=", g.term(nv, maxv, 1, false), g.term(nv, maxv, 1, false))
+	case k == 9 && depth > 0:
+		return jt.C(";", g.goal(pi, nv, maxv, depth-1), g.goal(pi, nv, maxv, depth-1))
+	case k == 10 && depth > 0:
+		p := g.targetPred(pi)
+		if p.arity >= 1 {
+			full := g.callOf(p, nv, maxv, false).([]J)
+			args := full[2].([]J)
+			n := 1 + g.r.Intn(len(args)) // number of extra arguments passed through call/N
+			cl := jt.A(p.name)
+			if len(args) > n {
+				cl = jt.C(p.name, args[:len(args)-n]...)
+			}
+			return jt.C("call", append([]J{cl}, args[len(args)-n:]...)...)
+		}
+		return jt.C("call", jt.A(p.name))
+	case k == 11 && depth > 0:
+		return jt.C("\\+", g.goal(pi, nv, maxv, depth-1))
+	case k == 12 && depth > 0:
+		inner := g.callOf(g.targetPred(pi), nv, maxv+2, false)
+		t := g.term(nv, maxv+2, 1, false)
+		*nv++
+		return jt.C("findall", t, inner, jt.V(*nv))
+	case k == 13:
+		return jt.C("\\=", g.term(nv, maxv, 1, false), g.term(nv, maxv, 1, false))
+	case k == 14:
+		return jt.C("==", g.term(nv, maxv, 1, false), g.term(nv, maxv, 1, false))
+	case k == 15 && depth > 0:
+		return jt.C(";", jt.C("->", g.goal(pi, nv, maxv, 0), g.goal(pi, nv, maxv, 0)), g.goal(pi, nv, maxv, 0))
+	case k == 16 && depth > 0:
+		return jt.C("once", g.goal(pi, nv, maxv, depth-1))
+	case k == 17 && g.feat["catch"]:
+		switch g.r.Intn(4) {
+		case 0:
+			return jt.C("throw", g.term(nv, maxv, 1, false))
+		case 1:
+			return jt.C("catch", g.goal(pi, nv, maxv, 1), g.term(nv, maxv, 1, false), g.goal(pi, nv, maxv, 0))
+		case 2:
+			*nv++
+			return jt.C("is", jt.V(*nv), jt.A("foo"))
+		default:
+			return jt.C("catch", g.goal(pi, nv, maxv, 1), jt.V(1+g.r.Intn(*nv+1)), jt.A("true"))
+		}
+	case k == 18 && g.feat["db"] && len(g.dyn) > 0:
+		d := g.dyn[g.r.Intn(len(g.dyn))]
+		cl := g.callOf(d, nv, maxv, false)
+		switch g.r.Intn(5) {
+		case 0:
+			return jt.C("assertz", cl)
+		case 1:
+			return jt.C("asserta", cl)
+		case 2:
+			return jt.C("retract", cl)
+		case 3:
+			return cl
+		default:
+			return jt.C("once", jt.C("retract", cl))
+		}
+	case k == 19 && g.feat["bag"] && depth > 0:
+		inner := g.callOf(g.targetPred(pi), nv, maxv+2, false)
+		t := g.term(nv, maxv+2, 1, false)
+		*nv++
+		op := "bagof"
+		if g.r.Intn(2) == 0 {
+			op = "setof"
+		}
+		if g.r.Intn(3) == 0 && *nv > 1 {
+			inner = jt.C("^", jt.V(1+g.r.Intn(*nv-1)), inner)
+		}
+		return jt.C(op, t, inner, jt.V(*nv))
+	}
+	return jt.A("true")
+}
+
+type gclause struct {
+	head, body J
+	nv         int
+}
+
+func conjOf(gs []J) J {
+	if len(gs) == 0 {
+		return jt.A("true")
+	}
+	t := gs[len(gs)-1]
+	for i := len(gs) - 2; i >= 0; i-- {
+		t = jt.C(",", gs[i], t)
+	}
+	return t
+}
+
+func (g *pgen) body(pi int, nv *int) []J {
+	ng := 1 + g.r.Intn(3)
+	var gs []J
+	for k := 0; k < ng; k++ {
+		if g.feat["cut"] && g.r.Intn(4) == 0 {
+			gs = append(gs, jt.A("!")) // a direct conjunct of the body (or of a top-level disjunct)
+			continue
+		}
+		gs = append(gs, g.goal(pi, nv, 6, 2))
+	}
+	return gs
+}
+
+func (g *pgen) program() (db []J, query J, qv int) {
+	np := 2 + g.r.Intn(4)
+	g.preds, g.dyn = nil, nil
+	for i := 0; i < np; i++ {
+		g.preds = append(g.preds, gpred{"p" + strconv.Itoa(i), g.r.Intn(4)})
+	}
+	if g.feat["db"] {
+		nd := 1 + g.r.Intn(2)
+		for i := 0; i < nd; i++ {
+			g.dyn = append(g.dyn, gpred{"d" + strconv.Itoa(i), 1 + g.r.Intn(2)})
+		}
+	}
+	id := 1
+	for pi, p := range g.preds {
+		var cls []gclause
+		switch {
+		case p.arity == 2 && g.r.Intn(3) == 0:
+			// structural list recursion (map)
+			cls = []gclause{
+				{jt.C(p.name, jt.A("[]"), jt.A("[]")), jt.A("true"), 0},
+				{jt.C(p.name, jt.C(".", jt.V(1), jt.V(2)), jt.C(".", jt.C("f", jt.V(1)), jt.V(3))), jt.C(p.name, jt.V(2), jt.V(3)), 3},
+			}
+		case p.arity == 3 && g.r.Intn(3) == 0:
+			// append/3
+			cls = []gclause{
+				{jt.C(p.name, jt.A("[]"), jt.V(1), jt.V(1)), jt.A("true"), 1},
+				{jt.C(p.name, jt.C(".", jt.V(1), jt.V(2)), jt.V(3), jt.C(".", jt.V(1), jt.V(4))), jt.C(p.name, jt.V(2), jt.V(3), jt.V(4)), 4},
+			}
+		case p.arity == 2 && g.r.Intn(4) == 0 && pi+1 < len(g.preds):
+			// member/2-like with mutual recursion through the next predicate when it has arity 2
+			cls = []gclause{
+				{jt.C(p.name, jt.V(1), jt.C(".", jt.V(1), jt.V(2))), jt.A("true"), 2},
+				{jt.C(p.name, jt.V(1), jt.C(".", jt.V(2), jt.V(3))), jt.C(p.name, jt.V(1), jt.V(3)), 3},
+			}
+		default:
+			nc := 1 + g.r.Intn(3)
+			for c := 0; c < nc; c++ {
+				nv := 0
+				linear := g.r.Intn(8) > 0
+				head := g.callOf(p, &nv, 4, linear)
+				body := jt.A("true")
+				if g.r.Intn(3) > 0 {
+					if g.r.Intn(6) == 0 {
+						// top-level disjunction: both branches are cut-transparent
+						body = jt.C(";", conjOf(g.body(pi, &nv)), conjOf(g.body(pi, &nv)))
+					} else {
+						body = conjOf(g.body(pi, &nv))
+					}
+				}
+				cls = append(cls, gclause{head, body, nv})
+			}
+		}
+		var jc []J
+		for _, c := range cls {
+			jc = append(jc, map[string]J{"id": float64(id), "head": c.head, "body": c.body, "nv": float64(c.nv)})
+			id++
+		}
+		db = append(db, map[string]J{"key": []J{p.name, float64(p.arity)}, "dyn": false, "cls": jc})
+	}
+	for _, d := range g.dyn {
+		var jc []J
+		n := g.r.Intn(3)
+		for c := 0; c < n; c++ {
+			nv := 0
+			head := g.callOf(d, &nv, 2, true)
+			jc = append(jc, map[string]J{"id": float64(id), "head": head, "body": jt.A("true"), "nv": float64(nv)})
+			id++
+		}
+		if jc == nil {
+			jc = []J{}
+		}
+		db = append(db, map[string]J{"key": []J{d.name, float64(d.arity)}, "dyn": true, "cls": jc})
+	}
+	qnv := 0
+	query = g.callOf(g.preds[0], &qnv, 3, false)
+	switch g.r.Intn(4) {
+	case 0:
+		if len(g.preds) > 1 {
+			query = jt.C(",", query, g.callOf(g.preds[1], &qnv, 3, false))
+		}
+	case 1:
+		query = jt.C(",", query, g.goal(0, &qnv, 4, 1))
+	}
+	return db, query, qnv
+}
+
+func engineGen(seed int64, n int, opts map[string]string) []J {
+	g := &pgen{r: rand.New(rand.NewSource(seed)), feat: map[string]bool{}}
+	for _, f := range strings.Split(opts["feat"], ",") {
+		if f != "" {
+			g.feat[f] = true
+		}
+	}
+	max := 8
+	if m, err := strconv.Atoi(opts["max"]); err == nil {
+		max = m
+	}
+	var out []J
+	for i := 0; i < n; i++ {
+		db, q, qv := g.program()
+		out = append(out, map[string]J{"db": db, "query": q, "qv": float64(qv), "nv": float64(qv), "max": float64(max), "tag": fmt.Sprintf("seed%d#%d", seed, i)})
+	}
+	return out
+}
